@@ -47,6 +47,17 @@ func main() {
 		}
 	case "replay":
 		os.Exit(fw.RunReplay(os.Args[2]))
+	case "c11child":
+		// mc c11child <tier> <shard> <nshards> <from> <deadline> <progress> <results>
+		shard, _ := strconv.Atoi(os.Args[3])
+		n, _ := strconv.Atoi(os.Args[4])
+		from, _ := strconv.ParseInt(os.Args[5], 10, 64)
+		dl, _ := strconv.ParseInt(os.Args[6], 10, 64)
+		os.Exit(checks.C11Child(os.Args[2], shard, n, from, dl, os.Args[7], os.Args[8]))
+	case "tree":
+		fmt.Println(checks.TreeOf(os.Args[2]))
+	case "c11one":
+		os.Exit(checks.C11One(os.Args[2]))
 	default:
 		fmt.Fprintf(os.Stderr, "unknown command %s\n", os.Args[1])
 		os.Exit(2)
